@@ -6,7 +6,7 @@
    interleaving), any number of simulators, tiers, steps. *)
 From Coq Require Import ZArith List Bool Arith.
 Import ListNotations.
-From MV Require Import Time.Spec Sched.Timing Sched.Inv Sched.Init Sched.Wle Sched.Main Sched.Guards Sched.Final Static.Groups Static.Connect Static.Build Sched.Plane Sched.Link Sched.Certify.
+From MV Require Import Time.Spec Sched.Timing Sched.Inv Sched.Init Sched.Wle Sched.Main Sched.Guards Sched.Final Static.Groups Static.Connect Static.Build Sched.Plane Sched.Link Sched.Certify Sched.Later.
 
 (* once a consumer j has begun a step at t, no simulator k feeding it (over a connection with delay d, the
    minimum over all connections k -> j) is ever stepped at a time u whose delayed output time is at or before t *)
@@ -49,3 +49,12 @@ Example C01_nonvacuous :
                    [mkConn 0 1 2 1 f false 0] [] 5 100 true true in
   match prepare 100 sc with Prepared st dt t anc => check_static sc t anc | _ => false end = true.
 Proof. vm_compute. reflexivity. Qed.
+
+(* state form of the first clause, for every continuation of the run after BEGIN(j,t): every queued or in-flight step of
+   every provider, in every later state, is due after t *)
+Theorem C01_later_provider_steps_are_later : forall st, static_ok st -> forall s j t m s',
+  reached st s -> apply st s (EvBegin j t m) = Ok s' ->
+  forall evs l, run st s' evs = Ok l -> forall sr, In sr (s' :: l) ->
+  forall k d c, In (k, d) (indel st j) -> In c (cands (sr k)) -> tlt t (act c d) = true.
+Proof. exact later_candidates_are_later. Qed.
+Print Assumptions C01_later_provider_steps_are_later.
